@@ -383,4 +383,46 @@ example : ∀ b ∈ [[[1,2,3],[4]],[[5,6]]], LegalBlock b := by
   simp at hb
   rcases hb with rfl | rfl <;> (constructor <;> simp [blockData, encV, word])
 
+/-! ## positioned sources
+
+Whatever precedes the position -- a label, junk, records another reader has taken -- is no part of what is read: the records are those
+written from the position on, for every record format.  (A reader that rewound its source would deliver `skipped` as records.) -/
+
+@[simp] theorem Source.rest_skip (skipped file : Bytes) : (Source.mk (skipped ++ file) skipped.length).rest = file := by
+  simp [Source.rest]
+
+/-- **C05 / positioned V.** -/
+theorem V_readback_positioned (skipped : Bytes) (recs : List Bytes) (h : ∀ r ∈ recs, r.length + 4 < 65536) :
+    (Source.mk (skipped ++ writeV recs) skipped.length).readV = .ok recs := by
+  simp [Source.readV, V_readback recs h]
+
+/-- **C05 / positioned VB**, every legal blocking. -/
+theorem VB_readback_positioned (skipped : Bytes) (blocks : List (List Bytes)) (h : ∀ b ∈ blocks, LegalBlock b) :
+    (Source.mk (skipped ++ writeVB blocks) skipped.length).readVB = .ok blocks.flatten := by
+  simp [Source.readVB, VB_readback blocks h]
+
+/-- **C05 / positioned F.** -/
+theorem F_readback_positioned (skipped : Bytes) (lrecl : Nat) (hl : 0 < lrecl) (recs : List Bytes)
+    (h : ∀ r ∈ recs, r.length = lrecl) :
+    (Source.mk (skipped ++ writeF recs) skipped.length).readF lrecl = some recs := by
+  simp [Source.readF, F_readback lrecl hl recs h]
+
+/-- **C05 / positioned N.** -/
+theorem N_readback_positioned (skipped : Bytes) (cap : Nat) (recs : List Bytes)
+    (hlen : ∀ r ∈ recs, 0 < r.length ∧ r.length ≤ cap) :
+    ((Source.mk (skipped ++ writeN recs) skipped.length).readN cap (recs.map List.length)).1 = recs := by
+  simp only [Source.readN, Source.rest_skip]
+  exact (N_readback cap recs hlen).1
+
+/-- two readers one after the other on one source: the second reads what the first left -/
+theorem second_reader_continues (label : Bytes) (recs : List Bytes) (h : ∀ r ∈ recs, r.length + 4 < 65536) :
+    (Source.mk (label ++ writeV recs) label.length).readV = readV (writeV recs) := by
+  simp [Source.readV]
+
+example : (Source.mk ([0, 8, 0, 0, 76, 66, 76, 49] ++ writeV [[1, 2], [3]]) 8).readV = .ok [[1, 2], [3]] :=
+  V_readback_positioned [0, 8, 0, 0, 76, 66, 76, 49] [[1, 2], [3]] (by decide)
+/-- what a reader that rewound its source would deliver instead: the label framed as a record -/
+example : readV ([0, 8, 0, 0, 76, 66, 76, 49] ++ writeV [[1, 2], [3]]) = .ok [[76, 66, 76, 49], [1, 2], [3]] := by
+  simp [readV, dataV, writeV, encV, word, unword, Except.map, Bind.bind, Except.bind, pure, Except.pure]
+
 end Stingray.Recfm
